@@ -88,6 +88,10 @@ CHECKS["C17"] = dict(engine=E2, cat="other", design="DESIGN.md §4 C17",
     technique="CrossHair (z3) symbolic execution of the real ParquetFile._dtypes / pre_allocate / _get_index on a handle built from real schema and row-group thrift objects with symbolic row counts, NULL counts and statistics states; counterexamples replayed on spec-built files through ParquetFile.dtypes / to_pandas",
     text="Reduced claim - the prediction logic: for an integer column of any two row groups (rows, NULLs per row group, chunk statistics absent / without null_count / truthful all symbolic; after a float column and after a MAP column) the dtype predicted from metadata alone can hold every value a read then produces (nullable extension type or float64 whenever a row group that is read holds a NULL), the column list and order are the schema's, and the columns / index / categories handed to the allocator are exactly the predicted ones for every column selection.",
     note="What pandas allocates for a given dtype (dataframe.empty, block manager, time zones, extension arrays) is not encodable and stays outside: prediction is compared with the read only through replay on real files. Row counts are C06.")
+CHECKS["C20"] = dict(engine=E2, cat="other", design="DESIGN.md §4 C20",
+    technique="CrossHair (z3) over a scheduler that interleaves the real schema_tree / flatten / SchemaHelper.__init__ with the real SchemaHelper lookups, re-compiled with a yield after every statement; the schedule is symbolic; witnesses replayed with real threads at a minimal switch interval",
+    text="Reduced claim - slicing vs reading: for three schema shapes and three lookup operations, for every placement of the reader's first 2 (thorough 3) statements among the statements of a concurrent derivation of a sliced handle (which runs SchemaHelper.__init__ on the schema elements it shares with its parent), the reader of the parent obtains exactly what it obtains alone and no exception. Statement-level interleavings of two threads; each feasible schedule is one path.",
+    note="Only the shared schema tree is covered. Atomicity finer than a statement, more than two threads, the other shared state named by the property (statistics memoisation, lru/regex/json caches), pandas / numpy / the C extensions and concurrent part-file writing are outside; no engine here gives a semantics for interleaved bytecode, so this is the part of the property that can be decided by symbolic execution of the real code.")
 NA = {
     "C20": "quantifies over CPython thread schedules of code running in pandas/numpy/C extensions; CrossHair executes one thread and no engine here gives a semantics for interleaved bytecode; a hand-written interleaving model would not be the real code",
 }
